@@ -33,6 +33,7 @@ template class Tins::AddressRangeIterator< Tins::HWAddress<6> >;
 template class Tins::AddressRangeIterator< Tins::IPv4Address >;
 template class Tins::AddressRangeIterator< Tins::IPv6Address >;
 template struct std::hash< Tins::HWAddress<6> >;
+template Tins::AddressRange<Tins::HWAddress<6> > Tins::operator/<6>(const Tins::HWAddress<6>&, int);
 template bool Tins::Internals::increment<6>(Tins::HWAddress<6>&);
 template bool Tins::Internals::decrement<6>(Tins::HWAddress<6>&);
 template Tins::HWAddress<6> Tins::Internals::last_address_from_mask<6>(Tins::HWAddress<6>, const Tins::HWAddress<6>&);
@@ -63,6 +64,12 @@ def run(db, rep, tier):
     rep.rule("R6-successor", "increment() of every address type is the big-endian successor and returns true exactly on wrap-around; the range "
                              "iterator's end detection is built on that flag", 14)
     r6(db, rep)
+    rep.rule("R7-prefix-mask", "from_prefix_length / operator/ build, for EVERY prefix length 0..32 / 0..128 / 0..48, the mask of that many one bits "
+                               "followed by zeros, without an out-of-range shift", 3)
+    r7(db, rep)
+    rep.rule("R8-ntop-buffer", "text conversion through inet_ntop uses a buffer that holds the longest textual form (46 bytes for IPv6, 16 for "
+                               "IPv4) and passes that buffer's own size", 1)
+    r8(db, rep)
     rep.explanation = ("NARROW claim for C16: decides membership-as-ordering, operator consistency, hash/equality dependence, "
                        "the rejection discipline of the text parsers (incl. the exact accept set and digit values of the "
                        "hardware-address parser, by evaluating its character tests over all 256 byte values) and the bitwise shape "
@@ -564,3 +571,110 @@ def this_member(n):
     if n["k"] == "MemberExpr" and n.get("isfield") and n.get("c") and strip(n["c"][0])["k"] == "CXXThisExpr":
         return n["member"]
     return None
+
+
+def r7(db, rep):
+    from vlib import bytewalk, ieval
+    # IPv4: one expression of the prefix length, evaluated for all 33 values
+    fs = [f for fid, f in db.functions.items() if fid.startswith("Tins::IPv4Address::from_prefix_length(") and f.get("body")]
+    if not fs:
+        rep.analysis_broken("IPv4Address::from_prefix_length vanished")
+    else:
+        f = fs[0]
+        key = "IPv4Address::from_prefix_length"
+        pv = f["params"][0]["var"]
+
+        def bswap(v):
+            v &= 0xffffffff
+            return ((v & 0xff) << 24) | ((v & 0xff00) << 8) | ((v >> 8) & 0xff00) | (v >> 24)
+
+        def tf(x):
+            if x["k"] == "CallExpr" and x.get("cname") in ("host_to_be", "be_to_host") and len(x["c"]) == 2:
+                return bswap(ieval.ev(f, x["c"][1], {"__termfn__": tf, pv: tf.p}))
+            return None
+        bad = None
+        try:
+            for p_ in range(33):
+                tf.p = p_
+                try:
+                    v = ieval.run_body(f, f["body"], {"__termfn__": tf, pv: p_})
+                except ieval.Undefined as e:
+                    bad = "prefix length %d: undefined behaviour: %s" % (p_, e)
+                    break
+                if v is None:
+                    raise ieval.Unknown("no integer is returned")
+                want = bswap((0xffffffff << (32 - p_)) & 0xffffffff) if p_ else 0
+                if (v & 0xffffffff) != want:
+                    bad = "prefix length %d gives the network-order word 0x%08x, expected 0x%08x" % (p_, v & 0xffffffff, want)
+                    break
+        except ieval.Unknown as e:
+            rep.analysis_broken("%s: outside the finite evaluator: %s" % (key, e))
+            bad = False
+        if bad:
+            rep.violation("R7-prefix-mask", key, facts.loc(f), bad)
+        elif bad is None:
+            rep.ok("R7-prefix-mask", key, facts.loc(f), "all 33 prefix lengths give the exact mask; no shift count reaches 32")
+    # byte-wise builders
+    for pref, mx, what in (("Tins::IPv6Address::from_prefix_length(", 128, "IPv6Address::from_prefix_length"),
+                           ("Tins::operator/<6", 48, "operator/(HWAddress<6>, int)")):
+        fs = [f for fid, f in db.functions.items() if fid.startswith(pref) and f.get("body")]
+        if not fs:
+            rep.analysis_broken("%s vanished" % what)
+            continue
+        f = fs[0]
+        ip = [p_ for p_ in f["params"] if (facts.tyi(f, p_.get("t")) or {}).get("k") == "int"]
+        if not ip:
+            rep.analysis_broken("%s: integer parameter not found" % what)
+            continue
+        try:
+            bad, n = bytewalk.prefix_mask_check(f, ip[0]["var"], {"Tins::IPv6Address": 16, "Tins::HWAddress<6>": 6, "Tins::HWAddress<6UL>": 6}, mx)
+        except bytewalk.Unsupported as e:
+            rep.analysis_broken("%s: outside the byte-walk interpreter: %s" % (what, e))
+            continue
+        if bad:
+            rep.violation("R7-prefix-mask", what, facts.loc(f), bad)
+        else:
+            rep.ok("R7-prefix-mask", what, facts.loc(f), "all %d prefix lengths give the exact mask (%d paths)" % (mx + 1, n))
+
+
+NTOP_MIN = {10: 46, 2: 16}        # AF_INET6 -> INET6_ADDRSTRLEN, AF_INET -> INET_ADDRSTRLEN (POSIX)
+
+
+def r8(db, rep):
+    n = 0
+    for fid, f in sorted(db.functions.items()):
+        if not f.get("body") or not f["file"].startswith("src/"):
+            continue
+        for x in facts.fn_nodes(f):
+            if x["k"] != "CallExpr" or x.get("cname") != "inet_ntop" or len(x["c"]) != 5:
+                continue
+            n += 1
+            key = "%s:inet_ntop#%d" % (f["qual"].replace("Tins::", ""), n)
+            af = facts.cval(x["c"][1])
+            buf = facts.strip_all(x["c"][3])
+            szv = facts.cval(x["c"][4])
+            need = NTOP_MIN.get(af)
+            decl = None
+            if buf["k"] == "DeclRefExpr":
+                for d in facts.fn_nodes(f):
+                    if d["k"] == "VarDecl" and d.get("var") == buf.get("var"):
+                        decl = d
+            t = (facts.tyi(f, decl.get("t")) if decl else None) or {}
+            cap = t.get("n") if t.get("k") == "arr" else None
+            if cap is None and t.get("k") == "arr" and t.get("size"):
+                cap = t["size"]
+            if need is None or cap is None or szv is None:
+                rep.analysis_broken("%s: address family / buffer / size argument not recognised (af=%s, capacity=%s, size=%s)" % (key, af, cap, szv))
+                continue
+            if cap < need:
+                rep.violation("R8-ntop-buffer", key, facts.loc(f, x),
+                              "the text buffer holds %d bytes, the longest textual form needs %d (terminator included): inet_ntop fails with "
+                              "ENOSPC for such addresses and to_string() throws" % (cap, need))
+            elif szv > cap:
+                rep.violation("R8-ntop-buffer", key, facts.loc(f, x), "inet_ntop is told the buffer has %d bytes, it has %d" % (szv, cap))
+            elif szv < need:
+                rep.violation("R8-ntop-buffer", key, facts.loc(f, x), "inet_ntop is given a size of %d, the longest textual form needs %d" % (szv, need))
+            else:
+                rep.ok("R8-ntop-buffer", key, facts.loc(f, x), "%d-byte buffer, size argument %d >= %d" % (cap, szv, need))
+    if n < 1:
+        rep.analysis_broken("no inet_ntop call found")
